@@ -164,6 +164,11 @@ fn n_reenter2(vm: &mut Vm<Host>, f: Value, a: Value, b: Value) -> HR {
     reenter(vm, "reenter2", f, &[a, b])
 }
 
+fn n_try_call(vm: &mut Vm<Host>, f: Value) -> HR {
+    record(vm, "try_call", &[f]);
+    Ok(vm.run_function(f).unwrap_or(Value::Nil))
+}
+
 pub fn register_natives(vm: &mut Vm<Host>, natives: &[NativeSpec]) {
     for n in natives {
         let r = match (n.name.as_str(), &n.behaviour, n.arity) {
@@ -175,6 +180,7 @@ pub fn register_natives(vm: &mut Vm<Host>, natives: &[NativeSpec]) {
             ("echo2", NativeBehaviour::Echo, 2) => vm.register_native_function("echo2", into_f2(n_echo2)),
             ("fail", NativeBehaviour::Fail, 1) => vm.register_native_function("fail", into_f1(n_fail)),
             ("pack2", NativeBehaviour::Pack, 2) => vm.register_native_function("pack2", into_f2(n_pack2)),
+            ("try_call", NativeBehaviour::TryReenter, 1) => vm.register_native_function("try_call", into_f1(n_try_call)),
             ("reenter0", NativeBehaviour::Reenter, 1) => vm.register_native_function("reenter0", into_f1(n_reenter0)),
             ("reenter1", NativeBehaviour::Reenter, 2) => vm.register_native_function("reenter1", into_f2(n_reenter1)),
             ("reenter2", NativeBehaviour::Reenter, 3) => vm.register_native_function("reenter2", into_f3(n_reenter2)),
